@@ -9,7 +9,7 @@ from checks import _pathspace as ps
 ID = "C06"
 TITLE = "Allowing non-emitting states never makes the match worse"
 MANIFEST = {
-    "text": "Every input of the shared slice (all graphs on 2-3 nodes in two alphabets, 4-node graphs with <= 3 edges, twelve named 4-5 "
+    "text": "Every input of the shared slice (all graphs on 2-3 nodes in two alphabets, 4-node graphs with <= 3 edges, 26 named 4-12 "
             "node graphs where only a non-emitting bridge explains the trace) x 3 families x 6 cut-off sets x 2 noise settings is "
             "matched twice on the real code, non-emitting states off and on (first-order model, no width): the matched index with the "
             "feature on is >= the one with it off, and when both match the whole trace the best live emitting entry of the last "
@@ -19,6 +19,8 @@ MANIFEST = {
             "statement requires (first-order model, no pruning).",
     "technique": "bounded-exhaustive differential enumeration: every input executed in both modes and compared",
 }
+MANIFEST["text"] += " " + (
+    'Added after the seeding waves: noise settings with dist_noise_ne < dist_noise.')
 BUDGET = {"quick": 420, "thorough": 3000}
 RULE = ("states = lattice columns compared (two per observation), transitions = implementation runs, traces validated = pairs whose "
         "'off' side was also compared with the all-walks reference; non-trivial = the two runs differ (index, probability or a "
